@@ -458,6 +458,7 @@ def run_obligation(prop, hname, fn, cfg, seed=0, timeout_ms=20000, max_paths=200
         finally:
             sym.set_engine(E)
 
+    pending_unconfirmed, n_unconfirmed = None, 0
     try:
         while E.has_work():
             E.begin_path()
@@ -479,7 +480,16 @@ def run_obligation(prop, hname, fn, cfg, seed=0, timeout_ms=20000, max_paths=200
                     res["notes"].append(f"unconfirmed candidate on a path of unknown feasibility: {u.label}")
                     res["status"] = "inconclusive"
                 else:
-                    raise
+                    # a candidate that does not reproduce on the real code ends this path only: a later path may
+                    # still hold a counterexample that does reproduce (that one is the violation to report); the
+                    # obligation stays 'unconfirmed' (not decided) if none does
+                    if pending_unconfirmed is None:
+                        pending_unconfirmed = u
+                    if len(res["notes"]) < 20:
+                        res["notes"].append(f"unconfirmed candidate: {u.label}")
+                    n_unconfirmed += 1
+                    if n_unconfirmed >= 8:
+                        raise pending_unconfirmed
             except (ViolationFound, HarnessError):
                 raise
             except Exception as e:
@@ -501,6 +511,8 @@ def run_obligation(prop, hname, fn, cfg, seed=0, timeout_ms=20000, max_paths=200
             for n in h.notes:
                 if n not in res["notes"]:
                     res["notes"].append(n)
+        if pending_unconfirmed is not None:
+            raise pending_unconfirmed
         sts = {s for d in res["labels"].values() for s in d}
         if "unknown" in sts and res["status"] == "proved":
             res["status"] = "inconclusive"
